@@ -89,6 +89,34 @@ macro_rules! pstr_runner {
                         }
                         Err(_) => "E".to_string(),
                     },
+                    "rw" => {
+                        // the mutable view of bytes that already hold a string (unsafe API: called only when the
+                        // recorded range is valid UTF-8, which is judged here, not by the crate)
+                        h = None;
+                        let p = kvn(&toks, "p");
+                        let b = buf.bytes();
+                        let mut valid = true;
+                        if b.len() >= p {
+                            let mut len = 0usize;
+                            for j in (0..p).rev() {
+                                len = (len << 8) | b[j] as usize;
+                            }
+                            if len <= b.len() - p && std::str::from_utf8(&b[p..p + len]).is_err() {
+                                valid = false;
+                            }
+                        }
+                        if !valid {
+                            "E".to_string()
+                        } else {
+                            let x = unsafe { $Mut::from_bytes_mut(buf.static_mut()) };
+                            let r = {
+                                let t = x.as_str().as_bytes();
+                                format!("O{}:{}", if t.is_empty() { "-".to_string() } else { hex(t) }, x.size())
+                            };
+                            h = Some(x);
+                            r
+                        }
+                    }
                     "setbuf" => {
                         h = None;
                         let n = arg.len().min(buf.len);
